@@ -17,6 +17,7 @@ import common
 from common import enc, dec, err_kind
 from props import c07_hist as H
 from props import c07_zero as Z0
+from props import c07_tr as TR
 
 ID = "C07"
 RULE = ("random expression trees (depth<=3 quick / <=4 thorough) over Laurent polynomials with support in [-4,6] and "
@@ -38,8 +39,30 @@ RULE = ("random expression trees (depth<=3 quick / <=4 thorough) over Laurent po
         "float / bool powers, hash, ==, != — shapes cross (one polynomial created in 4..8 ways), ring (both sides of ring "
         "identities on differently spelled operands), walk, malformed (unhashable zeros [] / {}), weird-zero (a zero equal to a "
         "coefficient), fixed (every spelling x every call shape); at the end every pair of variables is crossed with ==, != "
-        "(both orders), hash, set / dict membership; pynum: +, -, *, /, **, ==, hash of two tagged numbers against CPython")
+        "(both orders), hash, set / dict membership; pynum: +, -, *, /, **, ==, hash of two tagged numbers against CPython; "
+        "TRANSLATOR (props/c07_tr.py): before the build the bodies of Poly.__init__ / zero / __len__ / __getitem__ / __setitem__ / "
+        "copy / diff / integrate / __add__ / __sub__ / __mul__ / __eq__ / __ne__ / __truediv__ and PolyMeta.__unary__ / __rbinary__ are "
+        "re-read from lazy_poly.py with ast and written as Lean definitions (Gen/C07Src.lean) that Props.C07.src_*_is_model prove equal "
+        "to the model functions; translator-selftest: 13 deliberate edits of the source text (swapped comparison, changed constants, "
+        "dropped thub, reordered statements, lost / wrong zero, union for intersection, wrong power shift) must each change the "
+        "translation or be refused, layout must not, and the unchanged source must reproduce the committed file byte for byte")
 TRUSTED = [
+    "source translator harness/props/c07_tr.py (method bodies of Poly / PolyMeta -> lean/ALV/Gen/C07Src.lean, proved equal to the model "
+    "functions by Props.C07.src_*_is_model) — trusted: (1) its reading of the Python subset: straight-line assignments, if / elif / "
+    "else, return, raise, `x is None`, short-circuit and / or / not, conditional expressions, generator expressions and list "
+    "comprehensions as filter / map (mapM when an element may raise: the exception leaves the method at the first failing item), "
+    "nested defs inlined at their calls; (2) the typing under which `isinstance` is DECIDED: powers are ints, coefficients / zeros are "
+    "numbers (never a Stream / Poly / list / dict), so the float-power clean-up and the Stream branches are dead and `thub` of a number "
+    "is the number; (3) the vocabulary mapping: OrderedDict(pairs) = ofPairs, enumerate = enumFrom 0, it.chain = ++, `k in d` = has, "
+    "`d[k]` under `k in d` = find?, `d[k] = v` = set, `del d[k]` = del, `if k in d: d[k] += v else: d[k] = v` = accum, "
+    "`for _ in xrange(n): d = f(d)` = iter, `for k, v in list(iteritems(D)): if C: del D[k]` = filter (not C) (keys of a dict are "
+    "distinct; the snapshot makes deleting while iterating legal), `[(key, f(A[key], B[key])) for key in set(A).intersection(B)]` = "
+    "Py.interWith f A B (set order abstracted), `next(iteritems(d))` under `len(d) == 1` = head, operator.truediv and / = Py.truediv "
+    "(ZeroDivisionError iff the divisor == 0), hasattr(self, '_hash') / getattr(self, '_hash', False) = the model's `hashed` flag, an int "
+    "meeting a number = PyNum.int; the definitions of ALV/Model/C07Src.lean (InitData, Py.thub, Py.truediv, Py.interWith, Py.next) are "
+    "that reading; (4) that PolyMeta wires __neg__ / __pos__ / the reflected dunders to __unary__ / __rbinary__ with operator.neg / pos / "
+    "add / sub / mul (AbstractOperatorOverloaderMeta: property C01's translator T1).  The differential tie runs the SAME model "
+    "functions against the real class, so a wrong reading shows there",
     "zero / spelling model ALV/Model/C07Zero.lean (hand-written, modelled not verified): Python's numeric tower as PyNum "
     "(result kinds of + - * / **, == as numerical equality, CPython's hash of int / Fraction / float / complex with modulus "
     "2^61-1) — tied to the real interpreter by entry pynum (kind, exact value and hash of every result); a float is a rational "
@@ -95,7 +118,9 @@ ASSUMPTIONS = [
     "they do not enter the pool",
 ]
 MANIFEST = {
-    "technique": "Lean 4 proof (association-list model interpreted into Mathlib's Laurent polynomial ring K[T;T⁻¹]; heap "
+    "technique": "source translator (harness/props/c07_tr.py: the bodies of 17 Poly / PolyMeta methods of lazy_poly.py are regenerated "
+                 "into Lean definitions on every run and proved equal to the hand-written model functions, Props.C07.src_*_is_model, "
+                 "21 theorems) + Lean 4 proof (association-list model interpreted into Mathlib's Laurent polynomial ring K[T;T⁻¹]; heap "
                  "model of mutable instances with invariant / freshness / frame theorems over all histories) + "
                  "differential tie on expression trees in the exact Fraction regime and on histories of shared, mutated "
                  "and re-used objects with arguments of every numeric type; model of the zero attribute and of Python's numeric "
@@ -1066,6 +1091,25 @@ def classify(c, io, drv):
     if e == "eq":
         return "eq-hash"
     return "unclassified"
+
+
+# ----------------------------------------------------------------------------
+# translator: method bodies of lazy_poly.py -> lean/ALV/Gen/C07Src.lean (props/c07_tr.py)
+# ----------------------------------------------------------------------------
+def regenerate(eng=None):
+    return TR.regenerate(eng)
+
+
+def extra_checks(eng):
+    ok, detail, report = TR.selftest()
+    eng.extra["translated"] = {
+        "translator": "harness/props/c07_tr.py -> lean/ALV/Gen/C07Src.lean (shallow: Lean definitions over ZPoly / PyNum / PyVal)",
+        "under_translator": TR.TRANSLATED,
+        "theorems": TR.THEOREMS,
+        "not_translated": TR.NOT_TRANSLATED,
+        "selftest": report,
+    }
+    return [("translator-selftest", ok, detail)]
 
 
 H._IMPL_OTHER.update({"zhist": Z0.impl, "pynum": Z0.impl, "expr": _impl_plain, "laws": _impl_plain, "eq": _impl_plain, "lagrange": _impl_plain})
